@@ -141,9 +141,10 @@ class FilterStore(Store):
         get = BoundClass(FilterStoreGet)
 
     def _do_get(self, event: FilterStoreGet) -> bool:
-        for item in self.items:
+        for i, item in enumerate(self.items):
             if event.filter(item):
-                self.items.remove(item)
+                # remove the matched item itself, not the first one equal to it
+                del self.items[i]
                 event.succeed(item)
                 break
         return True
